@@ -645,6 +645,10 @@ CORPUS["C13"] += [
     E("velocity history trimmed to its last entry", (SOLVER, "            del velocity[:-2]\n", "            del velocity[:-1]\n")),
 ]
 
+CORPUS["C05"] += [
+    B("frame labels are not written into the frame group", "R05.14", (RUNNER, "            group.attrs[key] = value\n", "            pass\n")),
+]
+
 def _package_files():
     import ast as _ast
     from ..src import repo_root as _rr
